@@ -190,6 +190,13 @@ func (w *World) DoPipe(t *Task, method, path string, body []byte, tr *Transport,
 		for i := 0; i < copies; i++ {
 			_ = client.SetReadDeadline(time.Now().Add(pipeWatchdog))
 			resp, err := http.ReadResponse(br, nil)
+			if err != nil && os.IsTimeout(err) {
+				w.tainted = true
+				res.NoResponse, res.Blocked = true, true
+				res.TransportNote = "no response within the pipe watchdog; handler at " + w.SiteName(t.lastSite)
+				res.Ticks = t.ticks
+				return res
+			}
 			if err != nil {
 				res.NoResponse = true
 				res.TransportNote = "no response: " + err.Error()
@@ -205,10 +212,23 @@ func (w *World) DoPipe(t *Task, method, path string, body []byte, tr *Transport,
 		_ = client.Close()
 	}
 	// the server must be done with the connection before anything else happens
-	select {
-	case <-done:
-	case <-time.After(pipeWatchdog):
-		infra("server did not finish the connection (handler still running?) last site %s", w.SiteName(t.lastSite))
+	lastTicks, idle := int64(-1), time.Duration(0)
+waitDone:
+	for {
+		select {
+		case <-done:
+			break waitDone
+		case <-time.After(250 * time.Millisecond):
+			if cur := t.ticks; cur != lastTicks {
+				lastTicks, idle = cur, 0
+			} else if idle += 250 * time.Millisecond; idle >= blockWatch {
+				w.tainted = true
+				res.NoResponse, res.Blocked = true, true
+				res.TransportNote = "handler blocked at " + w.SiteName(t.lastSite)
+				res.Ticks = t.ticks
+				return res
+			}
+		}
 	}
 	if len(responses) > 0 {
 		last := responses[len(responses)-1]
